@@ -55,6 +55,7 @@ ENTRIES: Dict[str, dict] = {
                        atoms={"np.shape(np.array(position, dtype=DTYPE))": ("shape", "position")}),
     "arrayShape": dict(mod="construct.array", cls="Array", fn="__init__",
                        atoms={"np.shape(np.array(points, dtype=DTYPE))": ("shape", "points"),
+                              "len(np.shape(np.array(points, dtype=DTYPE)))": ("len", "np.shape(points)"),
                               "len(np.array(points, dtype=DTYPE))": ("dim", "points", 0)}),
     "sideVertices": dict(mod="items.side", cls="Side", fn="__init__"),
     "opAddSideEdge": dict(mod="construct.operations.operation", cls="Operation", fn="add_side_edge"),
@@ -82,7 +83,8 @@ ENTRIES: Dict[str, dict] = {
     "loftedShape": dict(mod="construct.shape", cls="LoftedShape", fn="__init__",
                         atoms={"any([len(sketch_mid_i.faces) != len(sketch_1.faces) for sketch_mid_i in sketch_mid])": ("flag", "some mid sketch differs"),
                                "len(sketch_1.faces)": ("var", "len(sketch_1.faces)"), "len(sketch_2.faces)": ("var", "len(sketch_2.faces)")}),
-    "stackSlice": dict(mod="construct.stack", cls="Stack", fn="get_slice"),
+    "stackSlice": dict(mod="construct.stack", cls="Stack", fn="get_slice",
+                       atoms={"(len(self.shapes[0].grid[0]), len(self.shapes[0].grid), len(self.shapes))[axis]": ("var", "number of slices along axis")}),
     "curveParam": dict(mod="construct.curves.curve", cls="CurveBase", fn="_check_param"),
     "polylineShape": dict(mod="util.functions", cls=None, fn="polyline_length",
                           atoms={"len(np.shape(points))": ("len", "np.shape(points)"), "len(points[0])": ("dim", "points", 1),
